@@ -2,5 +2,4 @@ SPECIFICATION Spec
 CONSTANTS MaxLen = 3
   Buggy = FALSE
   Wide = TRUE
-  Replay = FALSE
 INVARIANTS Isolation HeapWF EmitPD EmitVec
